@@ -11,7 +11,7 @@ PROP = {'id': 'C07',
                'HpcSubmitter._make_async_submitter',
                'HpcSubmitter._get_available_jobs',
                'AsyncHpcSubmitter.run'],
- 'native': ['_BatchJobs.__init__', '_BatchJobs.try_append', '_BatchJobs.is_job_blocked', 'HpcSubmitter._make_batch'],
+ 'native': ['_BatchJobs.__init__', '_BatchJobs.try_append', '_BatchJobs.is_job_blocked', 'HpcSubmitter._make_batch', 'HpcSubmitterT._create_run_script'],
  'records': ['_BatchJobs', 'Job', 'SubmitterParams', 'SubmissionGroup', 'HpcSubmitter'],
  'min_obligations': 1000,
  'assumptions': ['configuration domain: per_node_batch_size >= 1 when not time-based; num_parallel_processes_per_node and every estimated_run_minutes set (>= '
